@@ -34,7 +34,8 @@ OR THE USE OR OTHER DEALINGS IN THE SOFTWARE.
 #define EndOfText 0x03
 #define MsgTypeN2k 0x93
 
-#define MaxActisenseMsgBuf 400
+// Start and end sequence (2+2), escaped checksum (2) and type, length, 11 header bytes and MaxDataLen data bytes, each possibly escaped
+#define MaxActisenseMsgBuf (2+2*(13+tN2kMsg::MaxDataLen)+2+2)
 
 // NMEA2000 uses little endian for binary data. Swap the endian if we are
 // running on a big endian machine. There is no reliable, portable compile
@@ -1118,7 +1119,7 @@ void tN2kMsg::Print(N2kStream *port, bool NoData) const {
 }
 
 //*****************************************************************************
-void AddByteEscapedToBuf(unsigned char byteToAdd, uint8_t &idx, unsigned char *buf, int &byteSum)
+void AddByteEscapedToBuf(unsigned char byteToAdd, uint16_t &idx, unsigned char *buf, int &byteSum)
 {
   buf[idx++]=byteToAdd;
   byteSum+=byteToAdd;
@@ -1134,7 +1135,7 @@ void AddByteEscapedToBuf(unsigned char byteToAdd, uint8_t &idx, unsigned char *b
 void tN2kMsg::SendInActisenseFormat(N2kStream *port) const {
   unsigned long _PGN=PGN;
   unsigned long _MsgTime=MsgTime;
-  uint8_t msgIdx=0;
+  uint16_t msgIdx=0;
   int byteSum = 0;
   uint8_t CheckSum;
   unsigned char ActisenseMsgBuf[MaxActisenseMsgBuf];
